@@ -232,10 +232,11 @@ HEADER_PROPS = """(* Props/C03.v -- GENERATED by driver/c03_gen_props.py (statem
    i.e. it also proves that no index leaves the buffer; the guard halves say the operation is [Panic Guard]
    exactly when the documented condition is violated.  All sizes and all element values are universally
    quantified; no ring law is assumed except [FieldLaws] for the two divisions. *)
-From Coq Require Import List Arith Lia Bool ZArith.
+From Coq Require Import List Arith Lia Bool ZArith Reals.
 From OV Require Import Base.Panic Base.Arith Model.Vector Model.Matrix Model.MatOps Inst.QcInst.
 From OV Require Import Proofs.Matrix Proofs.MatrixArith Proofs.MatrixSpec%s.
 Import ListNotations.
+Local Open Scope nat_scope.
 
 Theorem mat_new_wf : forall (A : Arith) r c (x : A),
   wf (mat_new r c x) /\\ rows (mat_new r c x) = r /\\ cols (mat_new r c x) = c.
